@@ -30,7 +30,7 @@ BUDGET = {
     "quick": {"cases": 1200, "seconds": 90, "shards": 8},
     "thorough": {"cases": 24000, "seconds": 900, "shards": 16},
 }
-REQUIRED_OBS = ["loaded_snapshot_compared", "loaded_predictions_compared", "original_unaltered_checked", "fresh_interpreter_loads", "same_path_resave_checked", "asymmetric_matrix_cases", "state_changed_between_saves", "failed_save_checked", "twin_loads_checked", "metric_set_through_property",
+REQUIRED_OBS = ["loaded_snapshot_compared", "patch_samples_cases", "follow_up_history_compared", "loaded_predictions_compared", "original_unaltered_checked", "fresh_interpreter_loads", "same_path_resave_checked", "asymmetric_matrix_cases", "state_changed_between_saves", "failed_save_checked", "twin_loads_checked", "metric_set_through_property",
                 "mode:pre", "mode:fly", "kind:supervised", "kind:semi", "kind:knn", "kind:unsup"]
 MIN_NONTRIVIAL = 100
 KINDS = ["supervised", "semi", "knn", "unsup"]
@@ -58,6 +58,8 @@ def generate(rng, tier, idx):
     case = {"kind": kind, "metric": name, "X": X.tolist(), "Y": Y.tolist(), "V": V.tolist(), "YV": [int(v) for v in YV], "Q": Q.tolist(),
             "max_k": max_k, "min_k": int(rng.integers(1, max_k + 1)), "pre": None, "fresh": bool(fresh),
             "fn_via_property": fn_via_property, "f32_unlabeled": bool(kind == "semi" and rng.random() < 0.3)}
+    if not pre and d in (2, 4) and name in ("euclidean", "manhattan", "squared_euclidean", "chebyshev") and rng.random() < 0.7:
+        case["patch"] = [d // 2, 2]          # every sample is a small 2-D patch: X has shape (n, h, w)
     if pre:
         if kind == "knn":
             N = n
@@ -78,9 +80,13 @@ def generate(rng, tier, idx):
     return case
 
 
+def _patch(case, A):
+    return A.reshape((len(A),) + tuple(case["patch"])) if case.get("patch") else A
+
+
 def _fit(case, m):
-    X, Y = np.array(case["X"], dtype=float), np.array(case["Y"], dtype=int)
-    V, YV = np.array(case["V"], dtype=float), np.array(case["YV"], dtype=int)
+    X, Y = _patch(case, np.array(case["X"], dtype=float)), np.array(case["Y"], dtype=int)
+    V, YV = _patch(case, np.array(case["V"], dtype=float)), np.array(case["YV"], dtype=int)
     if case.get("f32_unlabeled") and case["kind"] == "semi":
         V = V.astype(np.float32)               # labeled float64 beside unlabeled float32 rows
     pre = case["pre"]
@@ -96,14 +102,14 @@ def _fit(case, m):
 
 
 def _predict(case, m):
-    Q = np.array(case["Q"], dtype=float)
+    Q = _patch(case, np.array(case["Q"], dtype=float))
     if case["pre"]:
         return safe_call(m.predict, Q, np.array(case["pre"]["IQ"], dtype=int))
     return safe_call(m.predict, Q)
 
 
 def _feat(m):
-    return [(str(np.asarray(nd.features).dtype), np.ascontiguousarray(nd.features).tobytes().hex()) for nd in m.subgraph.nodes]
+    return [(str(np.asarray(nd.features).dtype), tuple(np.shape(nd.features)), np.ascontiguousarray(nd.features).tobytes().hex()) for nd in m.subgraph.nodes]
 
 
 def _plain(v):
@@ -203,7 +209,7 @@ def check(case):
         if kind == "unsup":
             safe_call(m.propagate_labels)
         else:
-            Xtr = np.array(case["X"], dtype=float)
+            Xtr = _patch(case, np.array(case["X"], dtype=float))
             safe_call(m.predict, Xtr, np.array(case["pre"]["I"], dtype=int)) if case["pre"] else safe_call(m.predict, Xtr)
         S1 = forest_snapshot(m)
         if snapshot_diff(S1, S0) is not None:
@@ -254,7 +260,7 @@ def check(case):
             Sb0 = forest_snapshot(mb2)
             if kind == "unsup":
                 safe_call(ma.propagate_labels)
-            Xtr = np.array(case_b["X"], dtype=float)
+            Xtr = _patch(case, np.array(case_b["X"], dtype=float))
             safe_call(ma.predict, Xtr, np.array(case_b["pre"]["I"], dtype=int)) if case["pre"] else safe_call(ma.predict, Xtr)
             for nd in ma.subgraph.nodes:
                 nd.relevant = 1
@@ -269,7 +275,7 @@ def check(case):
             p_now = _predict(case, m)          # the model's behaviour at the time of this save (labels may have been propagated)
             safe_call(m.save, pkl)
             S_saved = forest_snapshot(m)
-            json.dump({"Q": case["Q"], "IQ": case["pre"]["IQ"] if case["pre"] else None}, open(qf, "w"))
+            json.dump({"Q": _patch(case, np.array(case["Q"], dtype=float)).tolist(), "IQ": case["pre"]["IQ"] if case["pre"] else None}, open(qf, "w"))
             env = dict(os.environ)
             try:
                 pr = subprocess.run([sys.executable, "-m", "opfmon.fresh_load", kind, pkl, qf, out], env=env, cwd=tmp, timeout=300,
@@ -304,8 +310,33 @@ def check(case):
             elif pr is not None:
                 res.see("fresh_interpreter_failed_to_run")
                 res.note = (pr.stdout + pr.stderr)[-500:]
+        # ---- the loaded object goes on living like the original: the SAME follow-up history (another matrix assigned, a re-fit on
+        # other rows, a prediction) on the original and on the loaded model must give the same state and results
+        if l4.ok:
+            if case["pre"]:
+                D2 = np.array(case["pre"]["D"], dtype=float)[::-1, ::-1] * 1.5
+                m.pre_distances, m4.pre_distances = D2.copy(), D2.copy()
+            fo, fl = _fit(case_b, m), _fit(case_b, m4)
+            res.see("follow_up_history_compared")
+            if fo.ok != fl.ok:
+                bad = fl if fo.ok else fo
+                res.violate("load", "C19/loaded-model-diverges-later", f"{kind}/{name}: after the same follow-up (new matrix, re-fit) one of original/loaded raised "
+                            f"{type(bad.exc).__name__} at {bad.where} and the other did not")
+                return res
+            if fo.ok:
+                d = snapshot_diff(forest_snapshot(m4), forest_snapshot(m))
+                if d:
+                    res.violate("load", "C19/loaded-model-diverges-later", f"{kind}/{name}: original and loaded model re-fitted on the same data"
+                                + (" with the same newly assigned distance matrix" if case["pre"] else "") + f" differ: {d}")
+                    return res
+                po, pl = _predict(case_b, m), _predict(case_b, m4)
+                if po.ok and pl.ok and _plain(po.value) != _plain(pl.value):
+                    res.violate("load", "C19/loaded-model-diverges-later", f"{kind}/{name}: after the same re-fit the original predicts {_plain(po.value)}, the loaded model {_plain(pl.value)}")
+                    return res
         if case["pre"] and not np.array_equal(np.array(case["pre"]["D"]), np.array(case["pre"]["D"]).T):
             res.see("asymmetric_matrix_cases")
+        if case.get("patch"):
+            res.see("patch_samples_cases")
         res.see("mode:" + ("pre" if case["pre"] else "fly"))
         res.see("kind:" + kind)
         res.nontrivial = True
